@@ -325,7 +325,7 @@ def promote_dict(pd, kkind):
 
     def get(k, _items=items):
         if not _items:
-            raise Unsupported("value of an absent key")
+            return None  # never selected: has(k) is false for every key of an empty dict
         out = _items[-1][1]
         for c, v in reversed(_items[:-1]):
             out = ite_value(to_z3(k) == to_z3(c), v, lambda o=out: o)
